@@ -37,6 +37,9 @@ def dispatch(prop):
     if prop == "C18":
         import levels
         return levels.run_c18
+    if prop == "C13":
+        import text
+        return text.run_c13
     if prop == "C08":
         import conversions
         return conversions.run_c08
